@@ -752,6 +752,10 @@ def R6_reach_target_decision(run):
         va = got.get("Valid", [])
         ok = len(va) == 1 and va[0][0] == "bin" and ((va[0][1] == "Le" and is_param(va[0][3], "other")) or (va[0][1] == "Ge" and is_param(va[0][2], "other"))) and \
             [const_val(x) for x in got.get("ExceedsMax", [])] == [0]
+        if not ok and sorted(const_val(x) for x in va if const_val(x) is not None) == [0, 1] and len(va) == 2 and [const_val(x) for x in got.get("ExceedsMax", [])] == [0]:
+            # `matches!(self, Valid(v) if *v <= other)`: the comparison is a guard that returns true on one side, false on the other
+            rc = [at.ret_cond(1) for at in A.atoms(lte) if at.ret_cond(1) is not None]
+            ok = len(rc) == 1 and ((rc[0][0] == "Le" and is_param(rc[0][2], "other")) or (rc[0][0] == "Ge" and is_param(rc[0][1], "other")))
     run.check("R6", "lte", ok, "AmountDeltaU64::lte is %s; expected Valid(v) => v <= other, ExceedsMax => false (with `<` a budget that exactly pays for the move to the target overshoots it)" %
               {k: [sh(x, 40) for x in v] for k, v in got.items()}, loc=lte.loc(), detail="Valid(v) => v <= other; ExceedsMax => false")
     ex = facts.need_fn(T + "exceeds_max")
@@ -764,6 +768,16 @@ def R6_reach_target_decision(run):
             pv = arm_prov(ex, sw, tgt)
             got[v] = [const_val(x) for bi, bb in enumerate(ex.blocks) if bb["t"]["k"] == "ret" and pv.flow.state_in[bi] is not None for x in leaves(pv.local(0, bi, len(bb["s"])))]
         ok = got == {"Valid": [0], "ExceedsMax": [1]}
+    else:
+        # `matches!(self, ExceedsMax(_))`: the comparison discriminant(self) == ExceedsMax (or != Valid)
+        pvx = prov_of(ex)
+        rr = [strip(pvx.local(0, bi, len(bb["s"]))) for bi, bb in enumerate(ex.blocks) if bb["t"]["k"] == "ret"]
+        dsc = dict((str(v_), n_) for n_, v_ in (facts.adts.get(TM + "AmountDeltaU64") or {}).get("discrs", []))
+        if len(rr) == 1 and rr[0][0] == "bin" and rr[0][1] in ("Eq", "Ne"):
+            for (a_, b_) in ((strip(rr[0][2]), rr[0][3]), (strip(rr[0][3]), rr[0][2])):
+                if a_[0] == "discr" and mentions(a_, lambda s_: is_param(s_, "self")) and const_val(b_) is not None:
+                    nm = dsc.get(str(const_val(b_)))
+                    ok = (nm == "ExceedsMax" and rr[0][1] == "Eq") or (nm == "Valid" and rr[0][1] == "Ne")
     run.check("R6", "exceeds_max", ok, "AmountDeltaU64::exceeds_max is not false for Valid and true for ExceedsMax", loc=ex.loc(), detail="Valid => false; ExceedsMax => true")
     fn = facts.need_fn(SM + "compute_swap")
     dec = [at for at in A.atoms(fn) if is_call(at.term, "AmountDeltaU64::lte")]
